@@ -107,6 +107,8 @@ func canonEnded(connect string) string {
 }
 
 type SessCmp struct {
+	// PerStep[i] = the lines the implementation wrote in response to steps[i] (a received line or a helper call)
+	PerStep   map[int][]string
 	Res       *SessResult
 	ImplW     []string // canonical written lines after registration
 	ModelW    []string
@@ -123,11 +125,13 @@ type SessCmp struct {
 func (c *Ctx) CompareSession(sc SessCfg, steps []string, tlsActive, stsRecentlyFailed bool) *SessCmp {
 	s := &Session{Cfg: sc}
 	nick := sc.Nick
-	for _, st := range steps {
+	barrierOf := map[int]int{} // index into steps -> index of the barrier step that follows it
+	for sti, st := range steps {
 		switch st[0] {
 		case 'R':
 			line := st[1:]
 			s.Steps = append(s.Steps, Step{Op: "recv", Arg: line}, Step{Op: "barrier"})
+			barrierOf[sti] = len(s.Steps) - 1
 			// after 001 the background welcome handler sets the nick: wait for it
 			if e := girc.ParseEvent(line); e != nil && e.Command == "001" && len(e.Params) > 0 && !sc.DisableTracking {
 				nick = e.Params[0]
@@ -139,6 +143,9 @@ func (c *Ctx) CompareSession(sc SessCfg, steps []string, tlsActive, stsRecentlyF
 		case 'C':
 			f := strings.Split(st[1:], "\x00")
 			s.Steps = append(s.Steps, Step{Op: "call", Arg: f[0], Args: f[1:]}, Step{Op: "barrier"})
+			barrierOf[sti] = len(s.Steps) - 1
+		case 'S':
+			s.Steps = append(s.Steps, Step{Op: "snap", Arg: st[1:]})
 		case 'D':
 			if !sc.DisableTracking {
 				s.Steps = append(s.Steps, Step{Op: "dump"})
@@ -171,6 +178,31 @@ func (c *Ctx) CompareSession(sc SessCfg, steps []string, tlsActive, stsRecentlyF
 	out.Res = res
 	if res.Crashed || res.Wedged {
 		return out
+	}
+	// per-step outputs from the barrier marks
+	out.PerStep = map[int][]string{}
+	markAt := map[int]int{}
+	for _, m := range res.Marks {
+		markAt[m[0]] = m[1]
+	}
+	prev := s.RegLines
+	var nonBarrier []string
+	for _, l := range res.Written {
+		nonBarrier = append(nonBarrier, l)
+	}
+	for sti := 0; sti < len(steps); sti++ {
+		bi, ok := barrierOf[sti]
+		if !ok {
+			continue
+		}
+		cnt, ok := markAt[bi]
+		if !ok {
+			continue
+		}
+		if cnt >= prev && cnt <= len(nonBarrier) {
+			out.PerStep[sti] = nonBarrier[prev:cnt]
+			prev = cnt
+		}
 	}
 	w := res.Written
 	if n := registrationCount(sc); len(w) >= n {
